@@ -212,7 +212,7 @@ func buildTiming(t *testing.T, thorough bool) (engine.E1, map[string]any) {
 	maxReq := 0
 	// (a child takes the numbers from its parent: it is restarted after every crash)
 	inherited := map[string]int{}
-	if s := os.Getenv("C09_TIMING_NREQ"); s != "" && os.Getenv("C09_CHILD") != "" {
+	if s := os.Getenv("C09_TIMING_NREQ"); s != "" && inChild() {
 		if err := json.Unmarshal([]byte(s), &inherited); err != nil {
 			panic("c09 timing: C09_TIMING_NREQ: " + err.Error())
 		}
@@ -257,9 +257,7 @@ func buildTiming(t *testing.T, thorough bool) (engine.E1, map[string]any) {
 		}
 	}
 	if b, err := json.Marshal(nreq); err == nil {
-		childEnvMu.Lock()
-		childEnv["C09_TIMING_NREQ"] = string(b)
-		childEnvMu.Unlock()
+		setChildEnv("C09_TIMING_NREQ", string(b))
 	}
 	var parks []string
 	for i := 0; i < maxReq; i++ {
@@ -283,6 +281,9 @@ func buildTiming(t *testing.T, thorough bool) (engine.E1, map[string]any) {
 			if v[1] >= nreq[names[v[0]]] {
 				return true // the helper makes fewer provider calls
 			}
+			if strings.Contains(names[v[0]], "/") {
+				return true // same call as the entry without the suffix (they differ in the document part (c) mutates)
+			}
 			if sp.Get(v, "endA") == "deadline" && !strings.Contains(sp.Get(v, "scenario"), "cA") {
 				return true
 			}
@@ -293,37 +294,13 @@ func buildTiming(t *testing.T, thorough bool) (engine.E1, map[string]any) {
 		e1.Groups = [][]string{{"helper", "park", "scenario", "late", "transport", "endA"}}
 		e1.K = 0
 	}
-	e1.NewWorker = func(int) func(engine.Vec) engine.Result {
-		if os.Getenv("C09_CHILD") != "" {
+	e1.NewWorker = func(w int) func(engine.Vec) engine.Result {
+		return isolated(timingPart, w, sp, func() func(engine.Vec) engine.Result {
 			h := newHostPrep(t)
 			return func(v engine.Vec) engine.Result { return timingCase(t, h, sp, v, byName) }
-		}
-		var ch *childProc
-		return func(v engine.Vec) engine.Result {
-			if ch == nil {
-				ch = startChild()
-			}
-			res, crash, err := ch.do(timingPart, sp.Describe(v))
-			if crash == "" && err == nil {
-				return res
-			}
-			ch.kill()
-			ch = nil
-			hp := sp.Get(v, "helper")
-			if crash == "" {
-				return engine.Bad("harness", "child", "C09/harness-child/"+timingPart, err.Error())
-			}
-			rule := timingRule(sp, v)
-			what := fmt.Sprintf("helper %s, provider call %s parked, events %s, late answer %s, %s transport, A gives up by %s", hp, sp.Get(v, "park"), sp.Get(v, "scenario"), sp.Get(v, "late"), sp.Get(v, "transport"), sp.Get(v, "endA"))
-			first := crash
-			if i := strings.Index(first, "\n"); i > 0 {
-				first = first[:i]
-			}
-			if strings.Contains(first, "deadlock: main bubble goroutine has exited") {
-				return engine.Bad(rule, "blocked", "C09/not-terminated-in-time/"+hp, what+": every request was answered and every context cancelled, a goroutine of the execution stays blocked for ever")
-			}
-			return engine.Bad(rule, "crash", "C09/panic/"+site(crash), fmt.Sprintf("%s: unrecoverable %s in a goroutine started by the library (the process dies); frames: %s", what, clip(first, 160), repoFrames(crash, 5)))
-		}
+		}, func(v engine.Vec) (string, string) {
+			return timingRule(sp, v), fmt.Sprintf("helper %s, provider call %s parked, events %s, late answer %s, %s transport, A gives up by %s", sp.Get(v, "helper"), sp.Get(v, "park"), sp.Get(v, "scenario"), sp.Get(v, "late"), sp.Get(v, "transport"), sp.Get(v, "endA"))
+		})
 	}
 	extra := map[string]any{"helpers": len(names), "provider_calls_per_helper": nreq, "scenarios": scen, "late_answers": lateAlts}
 	return e1, extra
@@ -348,91 +325,101 @@ func timingCase(t *testing.T, h *hostPrep, sp engine.Space, v engine.Vec, byName
 	var setupErr error
 	var setupMsg, setupStack string
 	reached := false
-	pan := engine.Bubble(t, 0, func() {
-		rt.release = make(chan struct{})
-		released := false
-		release := func() {
-			if !released {
-				released = true
-				close(rt.release)
-			}
-		}
-		defer release()
-		e := &henv{prep: h, hc: &http.Client{Transport: rt, Timeout: 30 * time.Second}}
-		root, cancelRoot := context.WithTimeout(context.Background(), hostileDeadline)
-		defer cancelRoot()
-		var inst any
-		use := func(ctx context.Context) (any, error) { return hp.call(ctx, e) }
-		if hp.setup != nil {
-			setupMsg, setupStack = capture(func() { inst, setupErr = hp.setup(root, e) })
-			if setupErr != nil || setupStack != "" {
-				return
-			}
-			use = func(ctx context.Context) (any, error) { return hp.use(ctx, e, inst) }
-		}
-		rt.arm()
-		start := func(c *callerT, ctx context.Context) {
-			c.started = true
-			go func() {
-				c.msg, c.stack = capture(func() { c.val, c.err = use(ctx) })
-				c.done = true
-			}()
-		}
-		var ctxA context.Context
-		if byDeadline {
-			ctxA, A.cancel = context.WithTimeout(root, timingDeadlineA)
-		} else {
-			ctxA, A.cancel = context.WithCancel(root)
-		}
-		defer A.cancel()
-		start(&A, ctxA)
-		synctest.Wait()
-		isParked := func() bool {
-			rt.mu.Lock()
-			defer rt.mu.Unlock()
-			return rt.parked
-		}
-		// a helper that sleeps before it calls the provider (poll interval): let fake time pass
-		for i := 0; i < 4 && !isParked() && !A.done; i++ {
-			time.Sleep(time.Second)
-			synctest.Wait()
-		}
-		reached = isParked()
-		for _, ev := range strings.Split(sp.Get(v, "scenario"), ">") {
-			switch ev {
-			case "ans":
-				release()
-			case "cA":
-				if byDeadline {
-					dl, _ := ctxA.Deadline()
-					if d := time.Until(dl); d > 0 {
-						time.Sleep(d + time.Second)
-					}
-				} else {
-					A.cancel()
+	pan, leak := "", false
+	// synctest.Test panics in THIS goroutine when the bubble is left while a goroutine of it is
+	// blocked for ever; whether that is a caller is decided below
+	dmsg, _ := capture(func() {
+		pan = engine.Bubble(t, 0, func() {
+			rt.release = make(chan struct{})
+			released := false
+			release := func() {
+				if !released {
+					released = true
+					close(rt.release)
 				}
-			case "sB":
-				var ctxB context.Context
-				ctxB, B.cancel = context.WithCancel(root)
-				defer B.cancel()
-				start(&B, ctxB)
-			case "cB":
+			}
+			defer release()
+			e := &henv{prep: h, hc: &http.Client{Transport: rt, Timeout: 30 * time.Second}}
+			root, cancelRoot := context.WithTimeout(context.Background(), hostileDeadline)
+			defer cancelRoot()
+			var inst any
+			use := func(ctx context.Context) (any, error) { return hp.call(ctx, e) }
+			if hp.setup != nil {
+				setupMsg, setupStack = capture(func() { inst, setupErr = hp.setup(root, e) })
+				if setupErr != nil || setupStack != "" {
+					return
+				}
+				use = func(ctx context.Context) (any, error) { return hp.use(ctx, e, inst) }
+			}
+			rt.arm()
+			start := func(c *callerT, ctx context.Context) {
+				c.started = true
+				go func() {
+					c.msg, c.stack = capture(func() { c.val, c.err = use(ctx) })
+					c.done = true
+				}()
+			}
+			var ctxA context.Context
+			if byDeadline {
+				ctxA, A.cancel = context.WithTimeout(root, timingDeadlineA)
+			} else {
+				ctxA, A.cancel = context.WithCancel(root)
+			}
+			defer A.cancel()
+			start(&A, ctxA)
+			synctest.Wait()
+			isParked := func() bool {
+				rt.mu.Lock()
+				defer rt.mu.Unlock()
+				return rt.parked
+			}
+			// a helper that sleeps before it calls the provider (poll interval): let fake time pass
+			for i := 0; i < 4 && !isParked() && !A.done; i++ {
+				time.Sleep(time.Second)
+				synctest.Wait()
+			}
+			reached = isParked()
+			for _, ev := range strings.Split(sp.Get(v, "scenario"), ">") {
+				switch ev {
+				case "ans":
+					release()
+				case "cA":
+					if byDeadline {
+						dl, _ := ctxA.Deadline()
+						if d := time.Until(dl); d > 0 {
+							time.Sleep(d + time.Second)
+						}
+					} else {
+						A.cancel()
+					}
+				case "sB":
+					var ctxB context.Context
+					ctxB, B.cancel = context.WithCancel(root)
+					defer B.cancel()
+					start(&B, ctxB)
+				case "cB":
+					B.cancel()
+				}
+				synctest.Wait()
+			}
+			// everything was answered; now everybody gives up as well
+			A.cancel()
+			if B.cancel != nil {
 				B.cancel()
 			}
+			cancelRoot()
 			synctest.Wait()
-		}
-		// everything was answered; now everybody gives up as well
-		A.cancel()
-		if B.cancel != nil {
-			B.cancel()
-		}
-		cancelRoot()
-		synctest.Wait()
-		if !A.done || (B.started && !B.done) {
-			time.Sleep(timingGrace)
-			synctest.Wait()
-		}
+			if !A.done || (B.started && !B.done) {
+				time.Sleep(timingGrace)
+				synctest.Wait()
+			}
+		})
 	})
+	if strings.Contains(dmsg, "deadlock: main bubble goroutine has exited") {
+		leak = true
+	} else if dmsg != "" {
+		pan = dmsg
+	}
 	if pan != "" {
 		return engine.Bad("harness", "panic", "C09/harness-panic/"+timingPart, pan)
 	}
@@ -456,6 +443,11 @@ func timingCase(t *testing.T, h *hostPrep, sp engine.Space, v engine.Vec, byName
 		}
 	}
 	outcome := "A:" + A.outcome() + " B:" + B.outcome()
+	if leak {
+		// every caller has returned; a goroutine the library started stays blocked for ever.
+		// The statement speaks of the processing the caller waits for: recorded, not judged.
+		outcome += " +goroutine-left-behind"
+	}
 	if strings.HasPrefix(rule, "answer-first-must-succeed/") && A.err != nil {
 		return engine.Bad(rule, outcome, "C09/baseline-not-accepted/"+hp.name, fmt.Sprintf("%s: the honest answer arrived before anybody gave up, caller A failed: %v", what, A.err))
 	}
